@@ -27,7 +27,7 @@ LEVEL_NOTE = "small scope; SLSQP candidate inside the oracle (any feasible candi
 KE = ("exc", "msg", "option")
 KV = ("option", "what", "bounds", "surplus", "eps")
 
-OPTS = ["l2", "min", "max", "var", "num-lo", "num-mid", "num-hi", "vec-mid", "vec-lb"]
+OPTS = ["l2", "min", "max", "var", "num-lo", "num-mid", "num-hi", "vec-mid", "vec-lb", "vec-outside"]
 
 
 def _v(rec, clause, sig, *a, **k):
@@ -62,7 +62,11 @@ def objective(opt, n, lo, hi):
     if opt.startswith("num"):
         v = {"num-lo": float(np.sum(lo)) - 0.5, "num-mid": float(np.sum(mid)), "num-hi": float(np.sum(hi)) + 1.0}[opt]
         return v, (lambda x: float((np.sum(x) - v) ** 2)), (lambda x: 2 * (np.sum(x) - v) * np.ones(n)), "num"
-    v = mid.copy() if opt == "vec-mid" else lo + 0.125
+    if opt == "vec-outside":
+        # a requested vector that is itself outside the bounds (legal: the fit must come as close as the bounds allow)
+        v = np.where(np.arange(n) % 2 == 0, hi + 0.75, lo - 0.5)
+    else:
+        v = mid.copy() if opt == "vec-mid" else lo + 0.125
     return v, (lambda x: float(np.sum((x - v) ** 2))), (lambda x: 2 * (x - v)), "vec"
 
 
